@@ -20,6 +20,14 @@ func Dump(v any, skipFields ...string) string {
 	return sb.String()
 }
 
+// DumpV is Dump for a reflect.Value (e.g. an unexported field obtained with Field).
+func DumpV(v reflect.Value) string {
+	var sb strings.Builder
+	d := dumper{skip: map[string]bool{}, seen: map[uintptr]bool{}}
+	d.dump(&sb, v, 0)
+	return sb.String()
+}
+
 type dumper struct {
 	skip map[string]bool
 	seen map[uintptr]bool
